@@ -14,7 +14,7 @@ MIN_NONTRIVIAL = {"quick": 1000, "thorough": 15000}
 BLOB = (400, 1500)
 RULE = ("Hypothesis byte-backed generator: 1-4 command lines with multi-unit responses (DATA_NEXT loops with buffer edits, TEST with description, command "
         "lists, automatic READ) in LF and CRLF style, plus 1-10 READ/TEST events (automatic with 1-3 variables, and scripted multi-unit) on commands the lines cannot touch (line commands have 0-3 variables), triggered at "
-        "generated service steps; write back-pressure including long refusal runs, read availability patterns, ring capacity 1 and 3, shared (even and odd size) and separate buffers. "
+        "generated service steps (event commands now and then only_test / disabled - flags that concern the input stream only); in a third of the cases command handlers return HOLD and cat_hold_exit is called with one status per case at generated steps and on stall; the events-only run must emit nothing but event units; write back-pressure including long refusal runs, read availability patterns, ring capacity 1 and 3, shared (even and odd size) and separate buffers. "
         "Three world runs per case: mixed, lines alone (eager io), accepted events alone (in acceptance order). Oracle: dynamic-programming match of the mixed output "
         "as an interleaving at token boundaries of the two solo outputs, each in its own order; command tokens byte-for-byte, each newline of an event token LF or CRLF; "
         "tokens are LF-terminated chunks (never finer than the library's emission units). Non-trivial = the mixed output contains event units strictly between "
